@@ -201,3 +201,12 @@ def run(ctx: Ctx, rep: Report, tier: str):
     rep.rule("C03.R13", "a change that is only seen by a walk (restart with a rejected cursor) is still mirrored: the walk filter drops an event only when hash AND path are "
              "exactly what the state holds (C14.W6b)", 1)
     section(rep, lambda: walk_dedupe_is_exact(ctx, rep, "C03.R13"))
+    from rules.common import provider_write_conditions
+    rep.rule("C03.R14", "the engine's own writes happen under fixed conditions (C02.R16): a mirrored change is written once, on the peer, and not when it is already there", 10)
+    section(rep, lambda: provider_write_conditions(ctx, rep, "C03.R14"))
+    from rules.common import disposal_conditions
+    rep.rule("C03.R15", "a one-sided change is discarded (entry ignored / half cleared) only under the inventoried conditions (C01.R19)", 20)
+    section(rep, lambda: disposal_conditions(ctx, rep, "C03.R15"))
+    from rules.common import entry_paths_match_for_display
+    rep.rule("C03.R16", "a case-only rename is a change: SyncEntry.paths_match compares sync_path with path through paths_match(..., for_display=True)", 1)
+    section(rep, lambda: entry_paths_match_for_display(ctx, rep, "C03.R16"))
